@@ -27,6 +27,8 @@ type Opts struct {
 	Unexported    bool // unexported fields
 	Methods       bool // source methods / func-typed fields as field sources
 	MaxFields     int
+	NoSharedAddr  bool // stay out of F-SKIPCOPY-INTERIOR-PTR
+	DefectKinds   []string
 }
 
 // Builder accumulates one program.
@@ -60,6 +62,9 @@ func New(rt *rapid.T, o Opts) *Builder {
 	b := &Builder{rt: rt, O: o, Labels: map[string]int{}, defects: o.Defects}
 	if o.Defects > 0 {
 		kinds := []string{"kind", "shape", "enum", "exotic", "missing", "unexported", "ambiguous-case", "unknown-field", "ambiguous-automap"}
+		if len(o.DefectKinds) > 0 {
+			kinds = o.DefectKinds
+		}
 		b.defectKind = kinds[rapid.IntRange(0, len(kinds)-1).Draw(rt, "defect-kind")]
 		if b.fieldDefect() {
 			b.O.FieldSettings = true
@@ -79,6 +84,9 @@ func New(rt *rapid.T, o Opts) *Builder {
 	b.SC = &spec.Converter{Name: "Converter"}
 	b.C.Converters = []*spec.Converter{b.SC}
 	b.Conv = &model.Conv{Prog: b.Prog, ConvPkg: "conv", OutPkg: "conv/generated"}
+	if o.SkipCopy {
+		b.Conv.Settings.SkipCopy = true
+	}
 	if o.SamePkg {
 		b.Conv.OutPkg = "conv"
 		b.SC.Doc = append(b.SC.Doc, "output:file ./generated.go", "output:package example.com/m/conv")
@@ -220,6 +228,12 @@ func (b *Builder) Pair(depth int) (*spec.T, *spec.T) {
 	case "tptr":
 		b.topLevel = true
 		s, t := b.Pair(depth - 1)
+		if b.Conv.Settings.SkipCopy && b.O.NoSharedAddr && s.Key_() == t.Key_() && s.K != spec.KBasic {
+			// T -> *T of identical non-basic types under skipCopySameType takes the address
+			// of the source expression (known finding F-SKIPCOPY-INTERIOR-PTR)
+			b.label("excluded:F-SKIPCOPY-INTERIOR-PTR")
+			return spec.Ptr(s), spec.Ptr(t)
+		}
 		return s, spec.Ptr(t)
 	case "sptr":
 		b.topLevel = true
@@ -702,6 +716,21 @@ func (b *Builder) Method(name string, depth int) *model.Method {
 	for _, m := range b.Conv.Methods {
 		if m.Source.Key_() == s.Key_() && m.Target.Key_() == t.Key_() {
 			return m // the pair got its own method already
+		}
+	}
+	m, _ := b.declare(name, s, t)
+	return m
+}
+
+// StructMethod declares a top-level converter method whose pair is a named struct pair.
+func (b *Builder) StructMethod(name string, depth int) *model.Method {
+	if depth < 1 {
+		depth = 1
+	}
+	s, t := b.namedStruct(depth)
+	for _, m := range b.Conv.Methods {
+		if m.Source.Key_() == s.Key_() && m.Target.Key_() == t.Key_() {
+			return m
 		}
 	}
 	m, _ := b.declare(name, s, t)
